@@ -12,7 +12,7 @@ RULE = ('statements are generated as source lines from a grammar - reads in expr
         'x = (o.a, o.b)), comparisons (==, !=, <, <=, >, >=, also as if/while conditions), assignments (o.a = k, o.a = o.a + k, '
         'o.a = o.b), augmented assignments to the attribute itself (all eleven operators), augmented assignments to other '
         'targets that read the attribute (x += o.a, o.b += o.a, p.a += o.a, and r.a += o.a / z.a += o.a where r and z are other objects with a same-named attribute), the documented lock form (_, _lock = o.a followed '
-        'by a with-block) and two-statement lines - and executed by one simulated thread, 1-4 statements per run; after every '
+        'by a with-block), two-statement lines, and a helper function whose one line (dst.a OP= src.a) is executed with different objects (the class, another class with a same-named attribute, a plain object, in both roles) - and executed by one simulated thread, 1-4 statements per run; after every '
         'statement the kernel\'s own bookkeeping says whether the thread still owns the simulated RLock of any attribute, and '
         'afterwards a second thread reads every attribute of both instances (the observable the property names) and must '
         'complete; a second stratum runs two such threads at the same time under the seeded scheduler (bytecode granularity inside __get__/__set__) and asks the same question of each. Non-trivial = any run (every statement exercises the classifier); distinct = distinct statement texts '
@@ -75,6 +75,15 @@ def generate(seed, stratum, tier):
             'sched': common.draw_sched(rng, grans=('line', 'opcode'), weights=(1, 3), expected_steps=200, policies=('sticky', 'pct'))}
   n = rng.randrange(1, 5)
   sts = [list(rng.choice(prods)) for _ in range(n)]
+  if rng.random() < 0.2:
+    # one source line executed with different objects: the statement lives in a helper function that is called with
+    # instances of the class, of another class with a same-named attribute, and with a plain object
+    op = rng.choice(['+=', '+=', '-=', '|='])
+    sts = [['shared-line-def', 'def bump(dst, src):\n  dst.a %s src.a' % op]]
+    args = [('o', 'r'), ('r', 'o'), ('o', 'p'), ('p', 'o'), ('z', 'o'), ('o', 'z'), ('o', 'o'), ('r', 'r')]
+    for _ in range(rng.randrange(2, 6)):
+      a, b = rng.choice(args)
+      sts.append(['shared-line', 'bump(%s, %s)' % (a, b)])
   return {'statements': sts, 'sched': {'gran': 'line', 'policy': 'sticky', 's': 1.0}}
 
 
@@ -90,6 +99,8 @@ def shrink_candidates(sc):
   s = sc['statements']
   if len(s) > 1:
     for i in range(len(s) - 1, -1, -1):
+      if s[i][0] == 'shared-line-def':
+        continue
       yield dict(sc, statements=s[:i] + s[i + 1:])
 
 
@@ -119,7 +130,7 @@ def execute(sc, sched):
 
     def _m(i):
       me = kernel.current_ctl()
-      own = tc.locks_owned_by(me, cls, ['a', 'b'])
+      own = tc.locks_owned_by(me, cls, ['a', 'b']) + ['Other.' + a for a in tc.locks_owned_by(me, other_cls, ['a'])]
       if own:
         held.append((i, own) if not which else (i, own, 'second thread'))
     ns['_m'] = _m
